@@ -58,7 +58,7 @@ def block_cells(spec):
     return {int(k): v for k, v in spec['cells'].items()}
 
 
-def make_unit(lay, zero, pool=None, via_defaults=False):
+def make_unit(lay, zero, pool=None, via_defaults=False, defaults_opposite=False):
     """one unit of a layout -> (ModbusSlaveContext, {table: block}, RegFile)
     via_defaults: the addressing mode is configured through the process-wide Defaults.ZeroMode instead of the keyword"""
     off = 0 if zero else 1
@@ -76,6 +76,15 @@ def make_unit(lay, zero, pool=None, via_defaults=False):
         Defaults.ZeroMode = zero
         try:
             slave = ModbusSlaveContext(**kw)
+        finally:
+            Defaults.ZeroMode = old
+    elif defaults_opposite:
+        # the process-wide default says the opposite; the explicit keyword has to win
+        from pymodbus.constants import Defaults
+        old = Defaults.ZeroMode
+        Defaults.ZeroMode = not zero
+        try:
+            slave = ModbusSlaveContext(zero_mode=zero, **kw)
         finally:
             Defaults.ZeroMode = old
     else:
@@ -98,7 +107,7 @@ def build(layout):
     pool = {} if layout.get('share_init_lists') else None
     for uid, lay in layout['units'].items():
         uid = int(uid)
-        slaves[uid], blocks[uid], models[uid] = make_unit(lay, zero, pool, layout.get('via_defaults', False))
+        slaves[uid], blocks[uid], models[uid] = make_unit(lay, zero, pool, layout.get('via_defaults', False), layout.get('defaults_opposite', False))
     if layout['single']:
         uid = next(iter(slaves))
         ctx = ModbusServerContext(slaves=slaves[uid], single=True)
@@ -144,6 +153,25 @@ def build_model(layout):
             tabs[t] = {a - off: v for a, v in block_cells(lay[t]).items() if 0 <= a - off <= 0xFFFF}
         models[int(uid)] = RegFile(tabs, aliases=lay['alias'])
     return Model(layout, models)
+
+
+FAIL_CLASSES = ['RuntimeError', 'KeyError', 'OSError', 'ValueError', 'ModbusIOException', 'ConnectionException', 'NotImplementedException', 'ParameterException']
+
+
+def make_failing(blocks_of_unit, exc_name):
+    """every access to the tables of this unit raises (a remote / broken datastore); the exception class is the datastore's choice"""
+    import builtins
+    import pymodbus.exceptions as pe
+    cls = getattr(pe, exc_name, None) or getattr(builtins, exc_name)
+    seen = set()
+    for b in blocks_of_unit.values():
+        if id(b) in seen:
+            continue
+        seen.add(id(b))
+        for name in ('validate', 'getValues', 'setValues'):
+            def boom(*a, _n=name, **k):
+                raise cls('datastore failure in %s' % _n)
+            setattr(b, name, boom)
 
 
 def aliasing_problems(blocks):
@@ -233,15 +261,20 @@ class Model(object):
             if tgt is None:
                 return ('silent', 'missing unit ignored') if ignore_missing else ('gateway', None)
             return ('reply', {'dir': RSP, 'fc': m['fc'] | 0x80, 'code': 1})
+        failing = getattr(self, 'failing', ())        # units whose datastore raises on every access
         if broadcast_enable and unit == 0:
-            for u in self.units.values() if not self.single else [self.only]:
-                if m['fc'] in DATA_FCS:
+            for uid, u in (self.units.items() if not self.single else [(next(iter(self.units)), self.only)]):
+                if m['fc'] in DATA_FCS and uid not in failing:
                     u.execute(m)
             return ('silent', 'broadcast')
         tgt = self.target(unit)
         if tgt is None:
             return ('silent', 'missing unit ignored') if ignore_missing else ('gateway', None)
         if m['fc'] in DATA_FCS:
+            if (unit in failing) or (self.single and failing):
+                # a hosted unit whose datastore fails: quantity errors are found before the store is touched (03), anything else is
+                # a server device failure (04); nothing changes
+                return ('reply', {'dir': RSP, 'fc': m['fc'] | 0x80, 'code': 3 if tgt.classify(m) == 3 else 4})
             return ('reply', tgt.execute(m))
         if m['fc'] == 8 and m.get('sub') == 4:
             return ('silent', 'listen-only')
